@@ -60,6 +60,20 @@ def assign_auto_stub():
 
 
 PURE_CLASSES = frozenset([ast.Name, ast.Constant])
+CONSTANT_ONLY = frozenset([ast.Constant])
+
+
+class PureSet(set):
+    """tags of source expressions whose evaluation has no effect.  `reads`: the ones that may
+    be a bare NAME.  Evaluating a constant is not observable at all.  Reading a variable has no
+    effect either, and reading it twice in a row or two variables in either order is the same --
+    but WHEN it is read relative to the evaluation of anything that can run code is observable
+    (that code may rebind the variable: `data[idx] = next_value()` where next_value() changes
+    idx), so reads keep their place between the effectful events."""
+
+    def __init__(self, *a):
+        super().__init__(*a)
+        self.reads = set()
 
 
 class EvalA(TL.Eval):
@@ -70,7 +84,7 @@ class EvalA(TL.Eval):
 
     def __init__(self, *a, **k):
         super().__init__(*a, **k)
-        self.pure = set()
+        self.pure = PureSet()
 
     def abstract(self, o):
         sem = o.props.get("sem")
@@ -79,6 +93,9 @@ class EvalA(TL.Eval):
             # (the transformation preserves the node class: a transformed node known to be
             # a Constant/Name comes from a Constant/Name)
             self.pure.add(tagstr(sem[2].tag))
+            k_ = (sem[2].cands or frozenset()) | (o.cands or frozenset())
+            if not ((sem[2].cands and sem[2].cands <= CONSTANT_ONLY) or (o.cands and o.cands <= CONSTANT_ONLY)):
+                self.pure.reads.add(tagstr(sem[2].tag))  # a bare NAME (or: name or constant)
         if sem and sem[0] == "assign":
             v = self.expr(sem[2])
             self.emit("assign", tagstr(sem[1].tag), v)
@@ -211,10 +228,19 @@ def check_destructure(R, nm, sig, p, shape):
 
 
 def drop_pure(tr, pure):
-    """remove evaluation events of pure source expressions (recursively)"""
+    """remove evaluation events of constants; bring reads of bare names into normal form: a
+    maximal block of adjacent reads is a SET (order and repetition inside it are not observable).
+    Recursively."""
+    reads = getattr(pure, "reads", set())
     out = []
     for e in tr:
-        if e[0] == "ev" and e[2] in pure:
+        if e[0] == "ev" and e[2] in pure and e[2] not in reads:
+            continue
+        if e[0] == "ev" and e[2] in reads:
+            if out and out[-1][0] == "reads":
+                out[-1] = ("reads", tuple(sorted(set(out[-1][1]) | {(e[1], e[2])})))
+            else:
+                out.append(("reads", ((e[1], e[2]),)))
             continue
         if e[0] == "rep":
             inner = drop_pure(e[4], pure)
@@ -704,7 +730,19 @@ def replay_destructure(rp):
 REPLAY = {"src": replay_src, "srcs": replay_srcs, "augop": replay_augop, "destructure": replay_destructure}
 
 from suites import thorough as _th
+def _statement_order(R, tier):
+    """which value a target receives, and where it is stored, depends on WHEN the target's object
+    and index expressions are evaluated relative to the value (`data[idx] = next_value()` where
+    the call changes idx): the whole-statement obligation of C07, with the real leaf handlers"""
+    from suites import c07
+    c07.g_assign_statement(R, tier)
+
+
+GROUPS["assign_statement_order"] = _statement_order
 GROUPS["thorough:destructuring-programs"] = _th.bounded_from_replay("bounded/destructuring-programs", replay_destructure)
 from suites import progenum as _pg
 GROUPS["thorough:enum-assignments"] = _th.only_thorough(_pg.g_f1)
 GROUPS["thorough:enum-augmented-assignments"] = _th.only_thorough(_pg.g_f2)
+
+# bounded stand-ins for undecided obligations (olvc/oblig.py::main_check)
+STANDINS = {"*": [dict(kind="destructure")]}
